@@ -753,6 +753,11 @@ def _holds_labels(cls):
 
 CL = 'fim/slivers/capacities_labels.py'
 MUTANTS = [
+    {'name': 'labels-field-probe-by-attribute-lookup', 'file': 'fim/slivers/capacities_labels.py', 'rule': 'R8', 'count': 7,
+     'find': "                if k not in self.__dict__:\n                    # methods and class tables are attributes too, only declared fields can be set\n                    raise AttributeError(k)\n",
+     'replace': "                self.__getattribute__(k)\n"},
+    {'name': 'sliver-accepts-negative-capacities', 'file': 'fim/slivers/base_sliver.py', 'rule': 'R9',
+     'find': "        assert(cap is None or all(v is None or v >= 0 for v in cap.__dict__.values()))\n        self.capacities = cap\n", 'replace': "        self.capacities = cap\n"},
     {'name': 'vlan-pattern-unicode-digits', 'file': CL, 'rule': 'R2', 'find': "        'vlan': (r'[0-9]{1,4}', \"1234\"),", 'replace': "        'vlan': (r'[\\d]{1,4}', \"1234\"),"},
     {'name': 'numa-pattern-dropped', 'file': CL, 'rule': 'R2', 'find': "        'numa': (r'-1|[0-9]', \"0\")\n", 'replace': ''},
     {'name': 'name-cached-before-validation', 'file': 'fim/user/model_element.py', 'rule': 'R7',
